@@ -320,15 +320,18 @@ func (n *Nodes) redistribute(ctx context.Context) {
 			assignedNumberBackends[i] = 1
 		}
 	} else {
+		// spread the remainder over the first nodes so no two nodes differ by more than one
+		numberPerNode := numberBackends / numberAvailableNodes
+		remainder := numberBackends % numberAvailableNodes
 		for idx := range allNodes {
 			if !nodeOnline[idx] {
 				continue
 			}
-			numberPerNode := numberBackends / numberAvailableNodes
-			if numberBackends%numberAvailableNodes != 0 {
-				numberPerNode++
-			}
 			assignedNumberBackends[idx] = numberPerNode
+			if remainder > 0 {
+				assignedNumberBackends[idx]++
+				remainder--
+			}
 		}
 	}
 
